@@ -738,8 +738,9 @@ class Exec(ExprMixin, StmtMixin, LoopMixin, ModelMixin):
             t = self.fresh("docstr", T.Val)
             self.define(T.isstr(t))
             return Sym("val", t)
-        fc = self.config.get("fn_contracts", {}).get((f.module.name, f.name)) if f.env is None and f.owner is None else None
-        if fc is not None and not (self.config.get("verify_fn") == (f.module.name, f.name) and not any(g.node is node for g in self.stack)):
+        qual = f.name if f.owner is None else f"{f.owner.name}.{f.name}"
+        fc = self.config.get("fn_contracts", {}).get((f.module.name, qual)) if f.env is None else None
+        if fc is not None and not (self.config.get("verify_fn") == (f.module.name, qual) and not any(g.node is node for g in self.stack)):
             # modular call of a function under contract: the caller is checked against the contract, not the body
             env = Env(f.module, None)
             self.bind_params(f, node.args, args, kwargs, env)
